@@ -1327,7 +1327,7 @@ fn main() {
     let total = gen::count(spec.tokens.len(), l_rt);
     let before = (get(&st.rt_cuts), get(&st.rt_cut_noop_judged));
     (0..total + spec.corpus.len()).into_par_iter().for_each(|i| {
-      let (src, whole) = if i < total { (gen::nth(spec.tokens, l_rt, i), thorough) } else { (spec.corpus[i - total].to_string(), true) };
+      let (src, whole) = if i < total { (gen::nth(spec.tokens, l_rt, i), thorough && name == "javascript") } else { (spec.corpus[i - total].to_string(), true) };
       let local = Stats::default();
       roundtrip_source(&rep, &local, &samples, spec, &src, 2, whole);
       st.absorb(&local);
